@@ -256,7 +256,36 @@ def smul_cases(build):
     cases += form_cases(build)
     return cases
 
+def constructor_cases(build):
+    cases = []
+    if build != 'ark': return decode_cases(build)
+    import hashlib
+    for L in list(range(0, 81)):
+        for seed in range(6 if L != 32 else 2):
+            data = hashlib.sha256(f'{L}-{seed}'.encode()).digest() * 3
+            data = data[:L]
+            got_valid = None
+            # expectation: either rejected, or a valid element; for 32 bytes exactly the decoder's verdict
+            exp = None
+            if L == 32:
+                d = decode_expect(data); exp = 'none' if d.startswith('err') else 'some ' + d[3:] + ' valid=true'
+                cases.append((f'x:{data.hex()} entry:from_random_bytes', exp, f'from_random_bytes on 32 bytes'))
+            else:
+                cases.append((f'x:{data.hex()} entry:from_random_bytes', ('re', r'^(none|some [0-9a-f]{64} valid=true)$'), f'from_random_bytes on {L} bytes'))
+    for b in byte_strings()[:30]:
+        d = decode_expect(b); exp = 'none' if d.startswith('err') else 'some ' + d[3:] + ' valid=true'
+        cases.append((f'x:{b.hex()} entry:from_random_bytes', exp, 'from_random_bytes on a structured 32-byte string'))
+    ident2 = f'B B {K(R - 1)} mul add'     # identity with the (0,-1) representative
+    lists = [[f'B {K(3)} mul', f'B {K(5)} mul'], [ident2, f'B {K(3)} mul', f'B {K(5)} mul dbl'], ['I', ident2, f'B {K(7)} mul'], [f'B {K(2)} mul', ident2, 'I', f'B {K(9)} mul B add']]
+    for l in lists:
+        for nm in ('normalize_batch', 'convert_batch'):
+            cases.append((' '.join(l) + f' named:{nm} allvalid', f'true {len(l)}', f'{nm} of {l}'))
+    cases.append(('named:sample allvalid', 'true 16', 'UniformRand samplers (8 elements, 8 affine points)'))
+    for prog, P, desc in element_exprs(build)[:40]: cases.append((f'{prog} valid', 'true', f'validity of {desc}'))
+    return cases
+
 BATTERIES = {
+    'C06': lambda b: constructor_cases(b),
     'C05': lambda b: smul_cases(b),
     'C08': lambda b: coherence_cases(b),
     'C17': lambda b: const_cases(b) + const_semantic_cases(b),
